@@ -154,7 +154,8 @@ func (a *Analyzer) Analyze(constructor any) (*ConstructorInfo, error) {
 
 	// Check cache first
 	a.mu.RLock()
-	if cached, ok := a.cache[cacheKey]; ok {
+	if cached, ok := a.cache[cacheKey]; ok && cached.Type == typ {
+		// The key is a code pointer, which reflect.MakeFunc functions of different types share
 		a.mu.RUnlock()
 		return cached, nil
 	}
